@@ -412,7 +412,6 @@ func (r *renderState) filterRaw(rawHTML []byte) {
 		commentState
 		piState
 		declState
-		cdataState
 	)
 	state := copyState
 	copyStart := 0
@@ -422,11 +421,14 @@ func (r *renderState) filterRaw(rawHTML []byte) {
 			if rawHTML[i] == '<' {
 				switch {
 				case hasBytePrefix(rawHTML[i:], cdataPrefix):
-					state = cdataState
+					// Outside of SVG and MathML content, an HTML tokenizer reads
+					// a CDATA section as a bogus comment that ends at the first '>'.
+					state = declState
 					i += len(cdataPrefix)
 				case hasBytePrefix(rawHTML[i:], htmlCommentPrefix):
 					state = commentState
-					i += len(htmlCommentPrefix)
+					// Only skip "<!": "<!-->" and "<!--->" are complete comments.
+					i += len("<!")
 				case hasHTMLDeclarationPrefix(rawHTML[i:]):
 					state = declState
 					i += len("<!x")
@@ -450,10 +452,15 @@ func (r *renderState) filterRaw(rawHTML []byte) {
 				i++
 			}
 		case commentState:
-			if hasBytePrefix(rawHTML[i:], htmlCommentSuffix) {
+			switch {
+			case hasBytePrefix(rawHTML[i:], htmlCommentSuffix):
 				state = copyState
 				i += len(htmlCommentSuffix)
-			} else {
+			case hasBytePrefix(rawHTML[i:], "--!>"):
+				// HTML tokenizers also end a comment here.
+				state = copyState
+				i += len("--!>")
+			default:
 				i++
 			}
 		case piState:
@@ -468,13 +475,6 @@ func (r *renderState) filterRaw(rawHTML []byte) {
 				state = copyState
 			}
 			i++
-		case cdataState:
-			if hasBytePrefix(rawHTML[i:], cdataSuffix) {
-				state = copyState
-				i += len(cdataSuffix)
-			} else {
-				i++
-			}
 		default:
 			panic("unreachable")
 		}
